@@ -133,6 +133,27 @@ def prop_names(cls) -> list[str]:
     return out
 
 
+SCALARS = (str, int, float, bool, type(None))
+
+
+def value_props(cls) -> list[str]:
+    """every public Python property of the class (not only the generic attribute properties): those that answer a plain value
+    on an element are compared on the re-parsed element and on the clone"""
+    return [n for n in dir(cls) if not n.startswith("_") and isinstance(getattr(cls, n, None), property) and n not in ("clone", "parent", "root", "children")]
+
+
+def read_scalars(e, names) -> dict:
+    out = {}
+    for n in names:
+        try:
+            v = getattr(e, n)
+        except Exception as ex:  # noqa: BLE001
+            v = f"<raises {type(ex).__name__}>"
+        if isinstance(v, SCALARS) or type(v).__name__ in ("Decimal", "date", "datetime", "timedelta"):
+            out[n] = v
+    return out
+
+
 def read_props(e, names) -> dict:
     out = {}
     for n in names:
@@ -244,6 +265,21 @@ def run(chk: core.Check) -> None:
                 c = e.clone
                 if type(c) is not type(e) or cx(c) != cx(e):
                     chk.fail({**case, "clause": "clone-class"}, f"{cls.__name__}.clone is a {type(c).__name__} / another XML")
+                    continue
+                # ... and reports the same property values (whatever other elements or clones exist by now)
+                vnames = value_props(cls)
+                v1, v2 = read_scalars(e, vnames), read_scalars(e2, vnames)
+                if v1 != v2:
+                    k = next(k for k in set(v1) | set(v2) if v1.get(k, "<no plain value>") != v2.get(k, "<no plain value>"))
+                    chk.fail({**case, "clause": "property-after-reparse", "property": k, "value": repr(v1.get(k)), "after": repr(v2.get(k))},
+                             f"{cls.__name__}.{k} differs after serialise + parse")
+                    continue
+                pc = {**read_props(c, pnames), **read_scalars(c, vnames)}
+                p1 = {**p1, **v1}
+                if pc != p1:
+                    k = next(k for k in p1 if p1[k] != pc.get(k, "<no plain value>"))
+                    chk.fail({**case, "clause": "property-on-clone", "property": k, "value": p1[k] if isinstance(p1[k], (str, int, bool, type(None))) else repr(p1[k]), "on_clone": repr(pc.get(k))},
+                             f"{cls.__name__}.{k} read on the clone differs from the element it was cloned from")
                     continue
             except Exception as ex:  # noqa: BLE001
                 chk.fail({**case, "exception": repr(ex), "clause": "clone-class"}, f"{cls.__name__}.clone raised {type(ex).__name__}")
